@@ -118,6 +118,7 @@ class Unit:
         self.canaries = []     # generated `requires P ensures false` vacuity canaries (must fail)
         self.clauses = []      # tagged contract clauses: dict(fn, tags, label, out_line)
         self.missing = []      # functions the contract requires to exist but that are absent from the source
+        self.outside_reading = []   # functions whose contract rests on a reading (R4 atomicity) their current shape falls outside of
         self.lost_regions = []  # implicit-tag refinements whose anchor is gone (harmless: function-level tags apply)
         self.lost_hints = []   # overlay proof hints / invariants whose anchor statement no longer exists (unit is "degraded")
 
@@ -374,6 +375,12 @@ def _emit_body(unit, fnrec, dirs):
     it, src = fnrec["_item"], fnrec["_src"]
     body = src[it.body_open:it.body_close + 1]   # includes braces
     orig = body
+    if "R4" in fnrec["rules"] and len(re.findall(r"\.lock\(\)", orig)) > 1:
+        # R4 reads ONE critical section per call as an atomic step; a function that takes the lock twice exposes an
+        # intermediate state to the other thread, which a pre/post contract cannot see: leave it to the native stand-in
+        unit.lost_hints.append("%s takes the lock %d times: the one-atomic-step reading of rule R4 does not cover it" % (fnrec["qual"], len(re.findall(r"\.lock\(\)", orig))))
+        unit.outside_reading.append({"fn": fnrec["qual"], "props": list(fnrec["props"]),
+                                     "why": "%s takes the lock %d times; rule R4 reads one critical section per call as one atomic step, so its contract says nothing about the intermediate state the other thread can see" % (fnrec["qual"], len(re.findall(r"\.lock\(\)", orig)))})
     body = apply_rules(body, fnrec["rules"], unit, fnrec["qual"])
     body = _keep_lines(orig, body)
     if body.count("\n") != orig.count("\n"):
